@@ -12,6 +12,7 @@ Template directives (lines starting with `//@`):
       //@loopentry <n>                      (following plain lines: proof text inserted at the start of loop n's body; no statement anchor)
       //@loopexit <n>                       (… inserted right after loop n)
       //@nested <fn name> <ret name>        (following plain lines: contract of a fn item nested in the body)
+      //@deimpl                             (X11: impl-Trait arguments become named generic parameters)
       //@entry                              (following plain lines: proof text inserted at the start of the body; no anchor)
   //@end
 Everything else is copied through (prelude, spec functions, lemmas, impl headers).
@@ -117,6 +118,7 @@ def expand(unit, repo=None):
                     if cmd == 'ret': ann['ret'] = arg
                     elif cmd == 'spec': cur = ('spec',)
                     elif cmd == 'entry': cur = ('entry',)
+                    elif cmd == 'deimpl': ann['deimpl'] = True
                     elif cmd == 'nested': cur = ('nested', arg.split()[0], arg.split()[1])
                     elif cmd in ('loopentry', 'loopexit'): cur = (cmd, int(arg.split()[0]))
                     elif cmd == 'loop':
